@@ -55,6 +55,8 @@ RunOps(ops, bs, em) ==
                                          ELSE IF IsObj(bs[o[2]]) THEN Put(bs, o[2], Obj(Put(bs[o[2]][2], "mut", Num(2))))
                                          ELSE bs, em)
       [] o[1] = "delall"    -> RunOps(r, EmptyFn, em)
+      \* (extended interpreter) stores what the _.match built-in returns for a small pattern and message: plain data
+      [] o[1] = "matchstore" -> RunOps(r, Put(bs, o[2], Obj([k \in {"?v"} |-> Num(2)])), em)
       [] o[1] = "mutprops"  -> RunOps(r, bs, em)
       \* counts in the step properties and copies the count: properties are per execution, so the count is always 1
       [] o[1] = "propcount" -> RunOps(r, Put(bs, o[2], Num(2)), em)
